@@ -369,11 +369,11 @@ def run(ch, render=False):
         source = stream
     elif srckind == "file":
         raw12 = SimRaw(w, stream)
-        raw12.eof_budget = 8 + len(arrivals)          # a framer may poll end-of-file once per packet; many packets yield nothing here
+        raw12.eof_budget = 8 + 6 * len(arrivals)      # a framer may poll end-of-file a few times per packet; many packets yield nothing here
         source = io.BufferedReader(raw12, buffer_size=ch.pick((8192, 16, 1), "bufsize"))
     else:
         pipe = Pipe(w)
-        pipe.eof_budget = 8 + len(arrivals)
+        pipe.eof_budget = 8 + 6 * len(arrivals)
         if srckind == "socket1":
             heads = [k + len(a[3]) for a in arrivals]
             pos = [0]
@@ -408,10 +408,37 @@ def run(ch, render=False):
     pk = _packets
     orig_gen = pk.ccsds_generator
 
-    def counting(*a, **kw):
-        for p_ in orig_gen(*a, **kw):
+    class _Counting:
+        """Transparent proxy around whatever the framer returns (generator, iterator object ...): counts the packets
+        handed out and forwards everything else (attributes, close, send ...) to the original object."""
+
+        def __init__(self, inner):
+            self.__dict__["_inner"] = inner
+            self.__dict__["_it"] = None
+
+        def __iter__(self):
+            return self
+
+        def __next__(self):
+            if self._it is None:
+                self.__dict__["_it"] = iter(self._inner)
+            v = next(self._it)
             pulled[0] += 1
-            yield p_
+            return v
+
+        def __getattr__(self, name):
+            return getattr(self.__dict__["_inner"], name)
+
+        def __setattr__(self, name, value):
+            setattr(self.__dict__["_inner"], name, value)
+
+        def close(self):
+            c = getattr(self.__dict__["_inner"], "close", None)
+            if c is not None:
+                c()
+
+    def counting(*a, **kw):
+        return _Counting(orig_gen(*a, **kw))
     pk.ccsds_generator = counting
     # "dropped with a warning": a warnings.warn() is what the code does today; a WARNING-level record on one of the
     # decoder's loggers (space_packet_parser.xtce.*) is accepted as well, so that moving from warnings to logging
